@@ -4,7 +4,9 @@ claim('C01', 'proof',
       'matrices built by the real diffusionTerm/convectionTerm/convectionUpwindTerm for a coefficient on one interior face vanish; '
       'boundary faces carry exactly area x documented face flux (independent area oracle); divergenceTerm and the TVD correction '
       'likewise; one implicit (solver stub, residual-sum identity) or explicit step from an arbitrary state keeps domainIntegral() '
-      'for closed / periodic configurations. Known findings: SphericalGrid3D family, upwind x periodic axis.',
+      'for closed / periodic configurations; with open boundaries (symbolic Robin data, wall velocities and diffusivities) the change of '
+      'the integral over one implicit or explicit step equals the net oracle flux through the boundary faces (discharged column by column). '
+      'Known findings: SphericalGrid3D family, upwind x periodic axis.',
       'DESIGN.md 2/C01')
 claim('C05', 'proof',
       'Bounded proof: for a symbolic coefficient on each face in turn and a fully symbolic field incl. ghost cells, the rows of the '
@@ -52,7 +54,8 @@ claim('C11', 'proof',
 claim('C12', 'proof',
       'Bounded proof: interior rows of the system solvePDE assembles with transientTerm equal alpha (x-old)/dt + (S x - s) for scalar and per-cell '
       'alpha and symbolic dt (hence steady solutions are fixed points; dt*row is polynomial in dt); solveExplicitPDE gives old + dt*RHS with ghosts '
-      're-imposed, leaves its input untouched and its result is usable by solvePDE; implicit minus explicit step equals -(dt/alpha) A (x-old).',
+      're-imposed, leaves its input untouched and its result is usable by solvePDE; implicit minus explicit step equals -(dt/alpha) A (x-old); '
+      'the ghost layer reported after an implicit step satisfies the boundary rows of the assembled system (one closure for both steps).',
       'DESIGN.md 2/C12')
 claim('C17', 'proof',
       'Bounded proof: with lengths x L, time x T, field x K (symbolic positive) every entry of every builder scales by exactly 1/T, every vector '
@@ -81,8 +84,8 @@ claim('C08', 'proof',
       'periodic shift, incl. TVD where argument terms are structurally identical. Known finding: upwind is not shift invariant on periodic axes.',
       'DESIGN.md 2/C08')
 claim('C09', 'model_checking',
-      'Bounded-exhaustive exploration of edit/solve histories (21 operations; all written values are fresh symbols, so each history is decided '
-      'for all values): after every history the system captured from the real solvePDE / the result of solveExplicitPDE is compared entry by entry '
+      'Bounded-exhaustive exploration of edit/solve histories (23 operations; all written values are fresh symbols, so each history is decided '
+      'for all values) plus a fixed-seed random set of longer histories (length 3..7): after every history the system captured from the real solvePDE / the result of solveExplicitPDE is compared entry by entry '
       'with that of a variable freshly constructed from the visible state. Known finding: shared BC object.',
       'DESIGN.md 2/C09')
 claim('C14', 'proof',
